@@ -8,13 +8,13 @@ import tempfile
 
 import numpy as np
 
-from harness import steps
+from harness import common, pyast_metrics, steps
 from harness.common import cf, close, differential, hexf, unhex
 from harness.props.c09 import H, U, cm3, cv3, rand_rot, rot_from_quat
 
 ID = "C01"
 IMPORTS = "From Evo Require Import Num Linalg Lie Metrics.\n"
-COQ_TARGETS = ["theories/MetricsProofs.vo", "generated/StepsC01.vo"]
+COQ_TARGETS = ["theories/MetricsProofs.vo", "generated/StepsC01.vo", "theories/MetricsTie.vo", "generated/LieGen.vo", "generated/MetricsGen.vo"]
 TRUSTED = ["model Evo.Metrics written by hand from APE.process_data; tie = differential run in binary64 (tolerances below)",
            "scipy's rotation-angle extraction is an oracle: compared through cos(angle) = (tr E - 1)/2 and sin(angle) = |vee(E - E^T)|/2",
            "CLI clause: the processed trajectories are produced by evo's own components (each tied to its model by C04/C05/C11/C14), "
@@ -41,7 +41,7 @@ def regenerate(ctx):
     except (steps.StepError, OSError, SyntaxError) as e:
         defs = [("main_ape_ape", ["<extraction failed: %s>" % e]), ("main_ape_run", []), ("downsample_or_filter", [])]
     steps.write_generated("StepsC01", defs)
-    return []
+    return pyast_metrics.regenerate_ties(ctx, common.REPO, common.COQ)
 
 
 # ------------------------------------------------------------------ helpers
@@ -575,6 +575,11 @@ def nontrivial(case, val, out):
 
 
 def run(ctx, replay=None, proofs_ok=True):
+    if not proofs_ok:   # the case files only need the executable model
+        common.build_theories(targets=["theories/Metrics.vo"])
+    if replay is not None and not replay.get("case"):
+        return {"failures": [], "coverage": {"evaluations": 0, "distinct_nontrivial": 0, "rule": "replay of an obligation "
+                "(no input case): the theorems were re-checked by the driver", "samples": []}}
     cases = [replay["case"]] if replay is not None else gen(ctx)
     failures, stats = differential(ctx, cases, imports=IMPORTS, impl=impl, expr=expr, judge=judge, shrink=shrink,
                                    nontrivial=nontrivial, per_file=40)
